@@ -948,26 +948,30 @@ class Message(ABC):
         )
 
     def __deepcopy__(self: T, _: Any = {}) -> T:
-        kwargs = {}
+        new = self.__class__()
         for name in self._betterproto.sorted_field_names:
             value = self.__raw_get(name)
             if value is not PLACEHOLDER:
-                kwargs[name] = deepcopy(value)
-        return self._copy_internal_state(self.__class__(**kwargs))  # type: ignore
+                object.__setattr__(new, name, deepcopy(value))
+        return self._copy_internal_state(new)
 
     def __copy__(self: T, _: Any = {}) -> T:
-        kwargs = {}
+        new = self.__class__()
         for name in self._betterproto.sorted_field_names:
             value = self.__raw_get(name)
             if value is not PLACEHOLDER:
-                kwargs[name] = value
-        return self._copy_internal_state(self.__class__(**kwargs))  # type: ignore
+                object.__setattr__(new, name, value)
+        return self._copy_internal_state(new)
 
     def _copy_internal_state(self: T, new: T) -> T:
-        # The constructor derives these from its arguments; a copy keeps the
-        # original's presence flag and the unknown fields it received.
+        # The attribute values are stored as they are: assigning them through the
+        # constructor would mark a field-less child message as present (for a
+        # shallow copy, on the child the original itself holds). A copy keeps the
+        # original's presence flag, the unknown fields it received and its oneof
+        # selection.
         new.__dict__["_serialized_on_wire"] = self._serialized_on_wire
         new.__dict__["_unknown_fields"] = self._unknown_fields
+        new.__dict__["_group_current"] = dict(self._group_current)
         return new
 
     @classproperty
